@@ -11,6 +11,7 @@ import (
 	"sort"
 	"time"
 
+	"github.com/Factom-Asset-Tokens/factom"
 	"github.com/pegnet/pegnetd/config"
 	"github.com/pegnet/pegnetd/srv"
 
@@ -140,12 +141,49 @@ type APIStatus struct {
 	Exec   int64  `json:"exec"`
 }
 
+// APIRich is one get-rich-list answer (addresses outside the scenario's keyring are named "?...").
+type APIRich struct {
+	Asset string    `json:"asset"`
+	Count int       `json:"count"`
+	Code  int       `json:"code"`
+	Rows  []APIPair `json:"rows"`
+}
+
+// APIPair is one rich-list row.
+type APIPair struct {
+	A   string `json:"a"`
+	Amt []int  `json:"amt"`
+}
+
+// APIRates is the get-pegnet-rates answer for one height.
+type APIRates struct {
+	H    uint32           `json:"h"`
+	Code int              `json:"code"`
+	V    map[string][]int `json:"v"`
+}
+
+// APIBank is the get-bank answer for one height.
+type APIBank struct {
+	H    uint32 `json:"h"`
+	Code int    `json:"code"`
+	Amt  []int  `json:"amt"`
+	Used []int  `json:"used"`
+	Req  []int  `json:"req"`
+	Neg  bool   `json:"neg"`
+}
+
 // APIObs is what the API says after a block.
 type APIObs struct {
-	Status   []APIStatus                 `json:"status"`
-	Balances map[string]map[string][]int `json:"balances"`
-	Queries  []APIQuery                  `json:"queries"`
-	Sync     int64                       `json:"sync"`
+	Status       []APIStatus                 `json:"status"`
+	Balances     map[string]map[string][]int `json:"balances"`
+	Queries      []APIQuery                  `json:"queries"`
+	Sync         int64                       `json:"sync"`
+	Issuance     map[string][]int            `json:"issuance"`
+	IssuanceCode int                         `json:"issuanceCode"`
+	IssuanceSync int64                       `json:"issuanceSync"`
+	Rates        APIRates                    `json:"rates"`
+	Rich         []APIRich                   `json:"rich"`
+	Bank         APIBank                     `json:"bank"`
 }
 
 func (r *Runner) pages(by, key string, param map[string]interface{}) APIQuery {
@@ -221,5 +259,55 @@ func (r *Runner) ObserveAPI(h uint32, hashes []string, addrs []string, heights [
 	for _, hh := range heights {
 		o.Queries = append(o.Queries, r.pages("height", fmt.Sprint(hh), map[string]interface{}{"height": hh}))
 	}
+	// ---- the ledger as the read methods present it: issuance, rates of this height, rich lists, bank row
+	var iss struct {
+		SyncStatus struct {
+			Sync int64 `json:"syncheight"`
+		} `json:"syncstatus"`
+		Issuance map[string]uint64 `json:"issuance"`
+	}
+	o.Issuance = map[string][]int{}
+	o.IssuanceCode, _ = r.Call("get-pegnet-issuance", nil, &iss)
+	o.IssuanceSync = iss.SyncStatus.Sync
+	for _, t := range r.Chain.Scn.Assets {
+		o.Issuance[t] = gen.Limbs(iss.Issuance[t])
+	}
+	var rates map[string]uint64
+	o.Rates = APIRates{H: h, V: map[string][]int{}}
+	o.Rates.Code, _ = r.Call("get-pegnet-rates", map[string]interface{}{"height": h}, &rates)
+	for _, t := range r.Chain.Scn.Assets {
+		o.Rates.V[t] = gen.Limbs(rates[t])
+	}
+	o.Rich = []APIRich{}
+	for i, t := range r.Chain.Scn.Assets {
+		if i >= 6 {
+			break
+		}
+		cnt := 2 + (int(h)+i)%4
+		var rows []struct {
+			Address string `json:"address"`
+			Amount  uint64 `json:"amount"`
+		}
+		rl := APIRich{Asset: t, Count: cnt, Rows: []APIPair{}}
+		rl.Code, _ = r.Call("get-rich-list", map[string]interface{}{"asset": t, "count": cnt}, &rows)
+		for _, x := range rows {
+			name := "?" + x.Address
+			if fa, err := factom.NewFAAddress(x.Address); err == nil {
+				name = r.Chain.Keys.Name(fa)
+			}
+			rl.Rows = append(rl.Rows, APIPair{A: name, Amt: gen.Limbs(x.Amount)})
+		}
+		o.Rich = append(o.Rich, rl)
+	}
+	var bank struct {
+		Height       int32
+		BankAmount   int64
+		BankUsed     int64
+		PEGRequested int64
+	}
+	o.Bank = APIBank{H: h}
+	o.Bank.Code, _ = r.Call("get-bank", map[string]interface{}{"height": h}, &bank)
+	o.Bank.Neg = bank.BankAmount < 0 || bank.BankUsed < 0 || bank.PEGRequested < 0
+	o.Bank.Amt, o.Bank.Used, o.Bank.Req = gen.Limbs(uint64(bank.BankAmount)), gen.Limbs(uint64(bank.BankUsed)), gen.Limbs(uint64(bank.PEGRequested))
 	return o
 }
